@@ -86,6 +86,10 @@ def run_kani_units(prop, units, tier, log):
                                         time=r['time'], checks=r['checks'],
                                         detail=f"{r['checks']} CBMC checks incl. overflow/bounds/panic reachability"))
                 elif r['status'] == 'FAILED':
+                    if not r['failed'] or r['checks'] == 0:
+                        log(r['raw'])
+                        raise Undecided(f"harness {h['name']}: verifier reported FAILED without any failed check "
+                                        f"(CBMC killed / crashed / should_panic mismatch) -- no verdict")
                     failed_named, auto, clause, unwind = set(), [], [], False
                     for desc, where in r['failed']:
                         k, v = kani_run.classify_failed(desc)
@@ -156,7 +160,6 @@ def decide(prop, tier, only_unit=None, verbose=False):
     known = [k for k in known_findings() if k['property'] == prop]
     open_known = {k['obligation']: k for k in known if k.get('status') == 'open'}
     lines, violations, known_hit = [], 0, []
-    replay_done = {}
     for r in results:
         if r.get('expect_fail'):
             # confined harness pinning a recorded finding: failing is the expected outcome
@@ -172,31 +175,41 @@ def decide(prop, tier, only_unit=None, verbose=False):
             elif k:
                 lines.append(f"NOTE finding-no-longer-reproduces property={prop} {r['id']}")
                 r['status'] = 'known-finding-gone'
+    groups = {}
     for r in results:
-        if r['status'] != 'failed':
+        if r['status'] == 'failed':
+            groups.setdefault((r['unit'], r['harness']), []).append(r)
+    for key, rs in groups.items():
+        prop_failed = [r for r in rs if r['cls'] != 'support']
+        u = [x for x in units if x['unit'] == key[0]][0]
+        lead = (prop_failed or rs)[0]
+        if not prop_failed and not (u['tool'] == 'verus' and u.get('driver')):
+            for r in rs:
+                undecided.append(f"support obligation {r['id']} failed ({r.get('detail') or ''}); the property clauses of "
+                                 f"that unit are no longer established")
             continue
-        if r['cls'] == 'support':
-            undecided.append(f"support obligation {r['id']} failed ({r.get('detail') or ''}); property clauses of that "
-                             f"unit are no longer established")
+        try:
+            if u['tool'] == 'kani':
+                with Lock('kani'):
+                    path, concrete = kani_run.replay(u['crate'], lead['harness'], prop, f"{lead['unit']}.{lead['harness']}")
+            else:
+                path, concrete = verus_run.replay(prop, lead, units)
+        except Exception as e:  # replay is best effort
+            path, concrete = os.path.join(common.REPLAYS, f"{prop}-{lead['unit']}.txt"), False
+            os.makedirs(common.REPLAYS, exist_ok=True)
+            open(path, 'w').write(f"obligation {lead['id']} failed\n{lead.get('detail')}\nreplay failed: {e}\n")
+        if not prop_failed and not concrete:
+            # only helper obligations failed and the paired search found no failing input: proof broken, undecided
+            for r in rs:
+                undecided.append(f"support obligation {r['id']} failed ({r.get('detail') or ''}); paired search found no "
+                                 f"failing input (see {path})")
             continue
-        key = (r['unit'], r['harness'])
-        if key not in replay_done:
-            try:
-                if r['backend'].startswith('kani'):
-                    u = [x for x in units if x['unit'] == r['unit']][0]
-                    with Lock('kani'):
-                        path, concrete = kani_run.replay(u['crate'], r['harness'], prop, f"{r['unit']}.{r['harness']}")
-                else:
-                    path, concrete = verus_run.replay(prop, r, units)
-            except Exception as e:  # replay is best effort
-                path, concrete = os.path.join(common.REPLAYS, f"{prop}-{r['unit']}.txt"), False
-                os.makedirs(common.REPLAYS, exist_ok=True)
-                open(path, 'w').write(f"obligation {r['id']} failed\n{r.get('detail')}\nreplay failed: {e}\n")
-            replay_done[key] = (path, concrete)
-            violations += 1
-            tail = '' if concrete else ' no-failing-input-found'
-            lines.append(f"VIOLATION property={prop} replay={path} obligation={r['id']}{tail}")
-        r['replay'] = replay_done[key][0]
+        violations += 1
+        tail = '' if concrete else ' no-failing-input-found'
+        ids = ','.join(r['id'] for r in (prop_failed or rs)[:4])
+        lines.append(f"VIOLATION property={prop} replay={path} obligation={ids}{tail}")
+        for r in rs:
+            r['replay'] = path
 
     # ---- evidence -----------------------------------------------------------------------
     head, dirty = repo_revision()
